@@ -28,6 +28,10 @@ class Evaluator:
             return node.value
         if isinstance(node, ast.UnaryOp) and isinstance(node.op, ast.USub):
             return -self.value(node.operand, env)
+        if isinstance(node, ast.UnaryOp) and isinstance(node.op, ast.Invert):
+            return ~self.value(node.operand, env)
+        if isinstance(node, ast.UnaryOp) and isinstance(node.op, ast.UAdd):
+            return +self.value(node.operand, env)
         if isinstance(node, ast.BinOp):
             a = self.value(node.left, env)
             b = self.value(node.right, env)
